@@ -199,6 +199,16 @@ fn raw(di: &syn::DeriveInput) -> String {
     }
     let _ = write!(out, " (ident {})", di.ident);
     generics(&di.generics, &mut out);
+    // the item's own where-clause: one token list per predicate
+    out.push_str(" (where");
+    if let Some(w) = &di.generics.where_clause {
+        for p in w.predicates.iter() {
+            out.push_str(" (pred");
+            toks(p.to_token_stream(), &mut out);
+            out.push(')');
+        }
+    }
+    out.push(')');
     attrs(&di.attrs, &mut out);
     match &di.data {
         syn::Data::Struct(s) => fields(&s.fields, &mut out),
